@@ -119,7 +119,7 @@ def parseBatchLines (cmds : List Cmd) : Batch :=
     match c.op with
     | "doc" => acc ++ [({ id := unhx (c.arg 0), plain := c.getD "plain" "0" == "1", fields := [] } : DocIn)]
     | "comp" => updLastDoc (fun d => { d with fields := d.fields ++ [({ kind := FKind.comp, name := strBytes (c.arg 0), typ := 99, len := c.nat "len" 0, dv := c.getD "dv" "0" == "1" } : FieldIn)] })
-    | "fld" => updLastDoc (fun d => { d with fields := d.fields ++ [({ kind := FKind.fld, name := strBytes (c.arg 0), typ := c.nat "typ" 116, stored := c.getD "st" "0" == "1", dv := c.getD "dv" "0" == "1", len := c.nat "len" 0, ap := parseNatList "," (c.getD "ap" "-"), val := parseVal (c.getD "val" ".") } : FieldIn)] })
+    | "fld" => updLastDoc (fun d => { d with fields := d.fields ++ [({ kind := FKind.fld, name := strBytes (c.arg 0), typ := c.nat "typ" 116, stored := c.getD "st" "0" == "1", dv := c.getD "dv" "0" == "1", len := c.nat "len" 0, ap := parseNatList "," (c.getD "ap" "-"), val := parseVal (c.getD "val" "."), shape := (c.get? "shape").bind (fun v => if v.isEmpty then none else some (unhx v)) } : FieldIn)] })
     | "syn" => updLastDoc (fun d => { d with fields := d.fields ++ [({ kind := FKind.syn, name := strBytes (c.arg 0) } : FieldIn)] })
     | "def" => updLastField (fun f => { f with defs := f.defs ++ [({ lhs := unhx (c.arg 0), rhs := unhxList (c.getD "rhs" "-") } : SynDefn)] })
     | "vec" => updLastDoc (fun d => { d with fields := d.fields ++ [({ kind := FKind.vec, name := strBytes (c.arg 0), dim := c.nat "dim" 1, metric := metricCode (c.getD "metric" "l2_norm"), opt := optCode (c.getD "opt" "recall"), vec := parseIntList (c.getD "x" "-") } : FieldIn)] })
